@@ -178,9 +178,10 @@ def check(env, rep, tier):
                     not_conf = s.entails(-conf.aff)
                     if is_conf:
                         inc = entry_sym_plus(s, c, 1)
-                        if not inc and isinstance(c, IntV):
-                            # saturating / checked variants: value >= entry and (== entry + 1 unless at the type maximum)
-                            inc = any(I.syminfo.get(sym, ("",))[0] == "unknown" for sym, _ in c.aff.t) and not entry_sym_plus(s, c, 0)
+                        if not inc and isinstance(c, IntV) and c.aff.is_const() and c.ty is not None:
+                            # saturating increment: the only other admissible result is the type maximum
+                            from absdom import int_range
+                            inc = c.aff.c == int_range(c.ty)[1]
                         if not inc:
                             ok_cnt = False
                     elif not_conf:
